@@ -23,6 +23,18 @@ CHECKS = {
 _NOTE = "Seeded sampling, not enumeration: a clean batch is evidence, not proof. Trusted: the harness's own AST/derivation checker/reference models, CPython, and (where stated) Fandango code on *fresh* objects as reference."
 
 MANIFEST_TEXT = {
+    "C19": {
+        "level": "Seeded exploration: at every main-loop step of thousands of simulated protocol interactions (generated protocol grammars, scripted peers, faults, several interactions per session) the forecast (next (sender, recipient, type) options and the completeness flag) is compared with an independent message-level automaton derived from the harness's own AST. Exploration is the right level: the quantifier ranges over all protocol grammars and all reachable histories.",
+        "design_ref": "DESIGN.md §6.7",
+        "note": _NOTE + " Histories are those the simulated interactions reach (<= 14 messages); open-ended repetitions are treated as unbounded by the reference, Fandango caps them at 20, so interactions are cut before that.",
+        "technique": "deterministic simulation of protocol mode (virtual clock, scripted faulty peers, seeded fragmentation/delivery schedule) with a per-step invariant against a reference automaton",
+    },
+    "C20": {
+        "level": "Seeded exploration of protocol interactions under a discrete-event simulator: arrival time, fragmentation, cross-party interleaving and peer misbehaviour (constraint-violating, wrong type, garbage, truncated, silent, stalled, unsolicited) are drawn from one seed; invariants (valid prefix, exactly-once in-order send log, receive conservation and attribution, never accept a bad message, valid remote data is never rejected in fault-free sessions) are checked at every step and at the end of every interaction.",
+        "design_ref": "DESIGN.md §6.7",
+        "note": _NOTE + " The wire is a reliable ordered stream per sender; listener threads are reduced to pre-emption points at the lock-protected buffer accessors (tier A); the real socket transport (tier B) is not part of this check.",
+        "technique": "deterministic simulation with fault injection: discrete-event virtual time, seeded scheduler at buffer-accessor pre-emption points, scripted faulty peers, history checks against a reference automaton and the peers' own send logs",
+    },
     "C13": {
         "level": "Seeded exploration of (grammar, input, cut set, consumption style, can_continue interrogation) tuples against a fresh whole-input parse; every failure is a minimised replayable decision trace. Exploration is the right level because the quantifier ranges over all compositions of all inputs of all grammars; cut sets are sampled (for short inputs most of the 2^(n-1) compositions are hit over a run, never claimed exhaustive).",
         "design_ref": "DESIGN.md §6.4",
@@ -42,5 +54,5 @@ NOT_APPLICABLE = {
     "C01": "planned (SearchSim), not built yet", "C02": "planned (SearchSim), not built yet", "C03": "planned (SearchSim), not built yet",
     "C09": "planned (TreeSim), not built yet", "C10": "planned (TreeSim), not built yet", "C11": "planned (SearchSim), not built yet",
     "C12": "planned (ParseSim), not built yet", "C16": "planned (SearchSim), not built yet", "C17": "planned (ReproSim), not built yet",
-    "C18": "planned (IsolationSim), not built yet", "C19": "planned (ProtoSim), not built yet", "C20": "planned (ProtoSim), not built yet",
+    "C18": "planned (IsolationSim), not built yet", 
 }
